@@ -187,6 +187,8 @@ structure Chan where
   unsubWires : Nat := 0             -- unsubscribe requests written to the transport for this channel
   closedByServer : Bool := false    -- ended by a close/error notification
   unsubscribed : Bool := false      -- ended by `RequestManager::unsubscribe`
+  uid : Id := .null                 -- ghost (C18): request id reserved for this subscription's unsubscribe call
+  acked : Bool := false             -- ghost (C18): the unsubscribe call has been answered
   deriving Repr
 
 inductive SendRes where
@@ -240,6 +242,7 @@ inductive Outcome where
 
 inductive Effect where
   | complete (t : Ticket) (o : Outcome)      -- a oneshot is completed (the front-end future resolves)
+  | dropped (t : Ticket) (o : Outcome)       -- ghost: `oneshot::send` failed, the future had been dropped
   | wire (text : Text)                       -- handed to the transport sender
   | push (c : ChanId) (payload : Text)       -- accepted by a subscription channel
   | toFront (msg : FrontMsg)                 -- queued by the read task for the send task
@@ -264,10 +267,16 @@ def Core.alive (st : Core) (t : Ticket) : Bool := !(st.dead.contains t.op)
 
 /-- `oneshot::Sender::send`: reaches the front end only if the receiver still exists -/
 def Core.completeIfAlive (st : Core) (t : Ticket) (o : Outcome) : List Effect :=
-  if st.alive t then [.complete t o] else []
+  if st.alive t then [.complete t o] else [.dropped t o]
 
-def Core.newChan (st : Core) (owner : Owner) (op : Nat) : Core × ChanId :=
-  ({ st with chans := st.chans ++ [{ cap := st.cap, owner := owner, op := op }] }, st.chans.length)
+def Core.newChan (st : Core) (owner : Owner) (op : Nat) (uid : Id := .null) : Core × ChanId :=
+  ({ st with chans := st.chans ++ [{ cap := st.cap, owner := owner, op := op, uid := uid }] }, st.chans.length)
+
+/-- ghost (C18): the response to the unsubscribe call `id` has arrived -/
+def ackChan (id : Id) (ch : Chan) : Chan :=
+  if ch.uid = id ∧ ch.unsubscribed = true then { ch with acked := true } else ch
+
+def Core.ackChans (st : Core) (id : Id) : Core := { st with chans := st.chans.map (ackChan id) }
 
 def Core.modChan (st : Core) (c : ChanId) (f : Chan → Chan) : Core :=
   { st with chans := modifyAt f st.chans c }
@@ -339,10 +348,10 @@ def processNotification (st : Core) (meth : Text) (params : Option Text) : Core 
 /-- the new subscription is in the tables but nobody waits for it any more (helpers.rs:220-223):
 the receiver half travelled inside the failed `send` and is dropped with it, then
 `build_unsubscribe_message` -/
-def abandonedSubscribe (st : Core) (c : ChanId) (rid : Id) (s : SubId) : Core × List Effect :=
+def abandonedSubscribe (st : Core) (c : ChanId) (rid : Id) (s : SubId) (t : Ticket) : Core × List Effect :=
   match buildUnsubscribeMessage (st.modChan c (fun ch => { dropReceiver ch with hasKind := false })) rid s with
-  | some (st', msg) => (st', [.toFront msg])
-  | none => (st.modChan c (fun ch => { dropReceiver ch with hasKind := false }), [])
+  | some (st', msg) => (st', [.dropped t (.subscribed c s), .toFront msg])
+  | none => (st.modChan c (fun ch => { dropReceiver ch with hasKind := false }), [.dropped t (.subscribed c s)])
 
 /-- helpers.rs:192-228, the `PendingSubscription` arm (the entry has already been removed) -/
 def completeSubscribe (st : Core) (r : Response) (uid : Id) (t : Ticket) (um : Text) : Core × List Effect :=
@@ -356,9 +365,9 @@ def completeSubscribe (st : Core) (r : Response) (uid : Id) (t : Ticket) (um : T
       | none => (st, st.completeIfAlive t .invalidSubId)
       | some m' =>
         if st.alive t then
-          ((({ st with mgr := m' }).newChan (.sub s) t.op).1, [.complete t (.subscribed st.chans.length s)])
+          ((({ st with mgr := m' }).newChan (.sub s) t.op uid).1, [.complete t (.subscribed st.chans.length s)])
         else
-          abandonedSubscribe (({ st with mgr := m' }).newChan (.sub s) t.op).1 st.chans.length r.id s
+          abandonedSubscribe (({ st with mgr := m' }).newChan (.sub s) t.op uid).1 st.chans.length r.id s t
 
 /-- helpers.rs:174-234 -/
 def processSingleResponse (st : Core) (r : Response) : Except Fatal (Core × List Effect) :=
@@ -366,7 +375,7 @@ def processSingleResponse (st : Core) (r : Response) : Except Fatal (Core × Lis
   | .pendingCall =>
     match st.mgr.completePendingCall r.id with
     | some (m', some t) => .ok ({ st with mgr := m' }, st.completeIfAlive t (.response r))
-    | some (m', none) => .ok ({ st with mgr := m' }, [])
+    | some (m', none) => .ok (({ st with mgr := m' }).ackChans r.id, [])
     | none => .error (.notPending r.id)
   | .pendingSub =>
     match st.mgr.completePendingSubscription r.id with
@@ -552,7 +561,7 @@ def handleFront (st : Core) (msg : FrontMsg) : Core × List Effect :=
          -- the receiver is dropped with the failed `send`; the handler entry stays until a
          -- notification for the method finds the channel closed
          ((({ st with mgr := m' }).newChan (.method meth) t.op).1.modChan st.chans.length
-            (fun ch => { dropReceiver ch with hasKind := false }), [])
+            (fun ch => { dropReceiver ch with hasKind := false }), [.dropped t (.registered st.chans.length)])
      | none => (st, st.completeIfAlive t .alreadyRegistered))
   | .unregisterNotif meth =>
     (match (st.mgr.removeNotificationHandler meth).2 with
